@@ -278,6 +278,10 @@ func (e *fnEnc) block(b *ssa.BasicBlock, entryGuard string) {
 			}
 		}
 		if li != nil {
+			if e.loopEntryHeap == nil {
+				e.loopEntryHeap = map[*ssa.BasicBlock]map[string]string{}
+			}
+			e.loopEntryHeap[b] = copyMap(e.cur) // the state in which the loop is entered (before the havoc)
 			preLoop := copyMap(e.cur)
 			keepMaps := func() {
 				// maps made by this function, not yet visible to any other function at the loop and not
@@ -394,6 +398,11 @@ func (e *fnEnc) loopEnv(li *loopInfo, from *ssa.BasicBlock, heap map[string]stri
 			return tv, true
 		}
 		return e.freeVarByName(name, e.entryHeap)
+	}
+	if from == nil || li.body[from] {
+		env.loopEntryHeap = e.loopEntryHeap[li.head] // nil while the head has not been reached
+	} else {
+		env.loopEntryHeap = heap // inv-entry: the state on the entering edge IS the entry state
 	}
 	// the loop's own iterator: a Next inside the loop whose Range was created outside it
 	for b := range li.body {
@@ -572,8 +581,14 @@ func (e *fnEnc) loopObligations(li *loopInfo, from *ssa.BasicBlock, guard, kind 
 				continue
 			}
 			env.prevHeap = hh
-			env.lookupPrev = func(name string) (TV, bool) { return e.varAt(name, li.head, nil, hh) }
 			cur := e.cur
+			env.lookupPrev = func(name string) (TV, bool) {
+				if tv, ok := e.varAt(name, li.head, nil, hh); ok {
+					return tv, true
+				}
+				// a local of the body (not carried around the loop): its value in this iteration
+				return e.varAtIdx(name, from, len(from.Instrs), nil, cur)
+			}
 			env.lookup = func(name string) (TV, bool) {
 				tv, ok := e.varAtIdx(name, from, len(from.Instrs), nil, cur)
 				if os.Getenv("LHV_DEBUG") != "" {
@@ -890,6 +905,7 @@ func (e *fnEnc) earlyExitObligations(b *ssa.BasicBlock, preds []*ssa.BasicBlock,
 				env := e.newEnv()
 				env.heapAt = heap
 				env.oldHeap = e.entryHeap
+				env.loopEntryHeap = e.loopEntryHeap[li.head]
 				pp := p
 				env.lookup = func(name string) (TV, bool) { return e.varAtIdx(name, pp, len(pp.Instrs), nil, heap) }
 				saved := e.cur
